@@ -13,7 +13,7 @@ REPLAY = os.path.join(EVID, 'replay')
 NPROC = min(16, os.cpu_count() or 4)
 GUARD = 'TINS_VERIF_HOOKS'
 CXXFLAGS = ('-O1 -g -fsanitize=address,undefined -fno-sanitize-recover=all -fno-omit-frame-pointer '
-            '-D_GLIBCXX_ASSERTIONS -D' + GUARD)
+            '-D' + GUARD)
 
 
 def log(*a):
@@ -55,13 +55,15 @@ def ensure_repo_build():
     """incremental out-of-tree sanitizer build of /repo's working tree"""
     t0 = time.time()
     with Lock('repo'):
-        if not os.path.exists(os.path.join(ASAN, 'build.ninja')):
+        stamp = os.path.join(BUILD, 'asan.flags')
+        if not os.path.exists(os.path.join(ASAN, 'build.ninja')) or not os.path.exists(stamp) or open(stamp).read() != CXXFLAGS:
             os.makedirs(ASAN, exist_ok=True)
             rc, out = sh(['cmake', '-G', 'Ninja', '-S', REPO, '-B', ASAN, '-DLIBTINS_BUILD_SHARED=0',
                           '-DLIBTINS_BUILD_TESTS=0', '-DLIBTINS_BUILD_EXAMPLES=0', '-DCMAKE_BUILD_TYPE=None',
                           '-DCMAKE_CXX_FLAGS=' + CXXFLAGS], timeout=600)
             if rc != 0:
                 raise BuildError('cmake configure failed:\n' + out[-3000:])
+            open(stamp, 'w').write(CXXFLAGS)
         rc, out = sh(['ninja', '-C', ASAN, '-j', str(NPROC)], timeout=1800)
         if rc != 0:
             raise BuildError('libtins does not build:\n' + out[-4000:])
@@ -441,3 +443,106 @@ def prove(ctx, prop_file, extra_obligation_files=()):
         m = re.search(r'(File "[^"]+", line \d+.*?)(?=\nmake|\Z)', out, re.S)
         return False, (m.group(1) if m else out[-2500:])
     return True, ''
+
+
+# --------------------------------------------------------------------------- generic differential driver
+def default_cmp(lm, lh):
+    """model lines must equal the harness lines (harness lines starting with '!!' are crash reports)"""
+    if lm == lh:
+        return []
+    for i, (a, b) in enumerate(zip(lm + ['<none>'] * len(lh), lh + ['<none>'] * len(lm))):
+        if a != b:
+            return ['op %d: model "%s" vs C++ "%s"' % (i, a[:300], b[:300])]
+    return ['length differs']
+
+
+def differential(ctx, comp, harness, batch, oracle, cmp=default_cmp, keep_first=1, nontrivial=None,
+                 runner_ok=True, known=None, max_reports=3, shrink_budget=60, harness_args=()):
+    """batch: list of (sid, lines).  oracle(lines, cpp_lines) -> list of complaints ([] ok) or None (precondition not met).
+    known(lines, complaints) -> text of a KNOWN_FINDINGS entry this failure belongs to, or None.
+    Returns stats dict."""
+    def evaluate(scripts):
+        h = run_harness(harness, scripts, args=harness_args)
+        m = run_model(comp, scripts) if runner_ok else {}
+        out = []
+        for sid, lines in scripts:
+            lh = h.get(sid, ['<no harness output>'])
+            lm = m.get(sid, ['<no model output>']) if runner_ok else None
+            orc = oracle(lines, lh)
+            crashes = [l for l in lh if l.startswith('!!')]
+            if orc is None:
+                orc_c = crashes
+            else:
+                orc_c = orc + [c for c in crashes if c not in orc]
+            corr = cmp(lm, lh) if runner_ok else []
+            out.append((sid, lines, corr, orc_c, lm, lh, orc is not None))
+        return out
+    results = evaluate(batch)
+    stats = {'evaluated': len(batch), 'oracle_applicable': sum(1 for r in results if r[6]),
+             'failing': 0, 'known_hits': 0}
+    if nontrivial:
+        ctx.cov['distinct_nontrivial'] += len(set(tuple(r[1]) for r in results if nontrivial(r[1], r[5])))
+    ctx.cov['evaluations'] += len(batch)
+    if runner_ok:
+        ctx.cov['traces_validated_against_impl'] = ctx.cov.get('traces_validated_against_impl', 0) + len(batch)
+    fails = [r for r in results if r[2] or r[3]]
+    stats['failing'] = len(fails)
+    fails.sort(key=lambda r: (0 if r[3] else 1, len(r[1])))
+    seen = set()
+    reported = 0
+    for sid, lines, corr, orc, lm, lh, app in fails:
+        if known:
+            kf = known(lines, orc + corr, lh)
+            if kf:
+                ctx.known(kf)
+                stats['known_hits'] += 1
+                continue
+        if reported >= max_reports:
+            continue
+        key = re.sub(r'\d+', 'N', (orc or corr)[0])[:60]
+        if key in seen:
+            continue
+        seen.add(key)
+        want_oracle = bool(orc)
+
+        def still(ls):
+            r = evaluate([('s', ls)])[0]
+            if known and known(ls, r[3] + r[2], r[5]):
+                return False
+            return bool(r[3]) if want_oracle else bool(r[2] or r[3])
+        small = shrink_lines(lines, still, keep_first=keep_first, budget=shrink_budget)
+        r = evaluate([('s', small)])[0]
+        if not (r[2] or r[3]):
+            small = lines
+            r = evaluate([('s', small)])[0]
+        _, _, corr2, orc2, lm2, lh2, _ = r
+        msg = (orc2 or corr2 or orc or corr)[0]
+        text = '=== replay\n' + '\n'.join(small) + '\n--- spec-oracle complaints (C++ vs Spec)\n' + '\n'.join(orc2) + \
+               '\n--- correspondence complaints (model vs C++)\n' + '\n'.join(corr2) + \
+               '\n--- model output\n' + '\n'.join(lm2 or []) + '\n--- C++ output\n' + '\n'.join(lh2) + '\n'
+        if orc2:
+            ctx.violation('C++ violates the spec: ' + msg[:300], text, has_input=True)
+        else:
+            ctx.violation('correspondence Model(%s) <-> C++ broken (%s); the spec oracle has no complaint on this input' % (comp, msg[:300]),
+                          text, has_input=False)
+        reported += 1
+    return stats
+
+
+def read_replay(path):
+    lines = []
+    for l in open(path):
+        l = l.rstrip('\n')
+        if l.startswith('---'):
+            break
+        if l.startswith('==='):
+            continue
+        if l.strip():
+            lines.append(l)
+    return lines
+
+
+def obligations_failed(ctx, ok, why, what):
+    """a proof or tie obligation no longer checks and no failing input was found elsewhere"""
+    if not ok:
+        ctx.violation(what, 'PROOF/TIE OBLIGATION FAILED\n' + why, has_input=False, suffix='txt')
